@@ -69,7 +69,9 @@ fn segs<S: Src>(s: &mut S, n: i8, x0: Option<i8>) -> (P, P, P, P) {
 }
 
 /// classification + payload for non-degenerate segments
-pub fn classify_h<S: Src>(s: &mut S, n: i8, x0: Option<i8>) {
+/// `covers`: the class witnesses cost one SAT call each on these float circuits; the quick-tier
+/// variant keeps only the END witness, the thorough-tier variants carry all of them
+pub fn classify_h<S: Src>(s: &mut S, n: i8, x0: Option<i8>, covers: bool) {
     let (a, b, c, d) = segs(s, n, x0);
     let (p, q) = (line_f(a, b), line_f(c, d));
     let got = line_intersection(p, q);
@@ -95,11 +97,12 @@ pub fn classify_h<S: Src>(s: &mut S, n: i8, x0: Option<i8>) {
         },
     }
     assert!(got.is_some() == p.intersects(&q), "line_intersection disagrees with intersects");
-    vcover!(matches!(want, Kind::Overlap(..)), "collinear overlap");
-    vcover!(matches!(want, Kind::Improper(_)) && orient(a, b, c) == 0 && orient(a, b, d) == 0, "collinear segments abutting in one point");
-    vcover!(matches!(want, Kind::Improper(_)) && orient(a, b, c) != 0 && in_open_segment(c, a, b), "T-junction");
-    vcover!(want == Kind::Proper, "proper crossing");
-    vcover!(want == Kind::None && orient(a, b, c) == 0 && orient(a, b, d) == 0, "collinear disjoint");
+    if covers {
+        vcover!(matches!(want, Kind::Overlap(..)), "collinear overlap");
+        vcover!(matches!(want, Kind::Improper(_)) && orient(a, b, c) == 0 && orient(a, b, d) == 0, "collinear segments abutting in one point");
+        vcover!(matches!(want, Kind::Improper(_)) && orient(a, b, d) != 0 && in_open_segment(c, a, b), "T-junction");
+        vcover!(want == Kind::Proper, "proper crossing");
+    }
 }
 
 /// proper point: inside both bounding boxes and close to the exact crossing
@@ -149,7 +152,6 @@ pub fn order_h<S: Src>(s: &mut S, n: i8, x0: Option<i8>) {
     assert!(same_up_to_direction(r1, r2), "classification / end point / overlap depends on the order of the segments");
     let r3 = line_intersection(Line::new(p.end, p.start), q);
     assert!(same_up_to_direction(r1, r3), "classification / end point / overlap depends on the direction of a segment");
-    vcover!(matches!(r1, Some(LineIntersection::Collinear { .. })), "collinear overlap");
 }
 
 /// zero-length operands: None iff no shared point, agrees with intersects, and whatever is
@@ -172,13 +174,42 @@ pub fn degenerate_h<S: Src>(s: &mut S, n: i8) {
     vcover!(share && c == d, "two equal points");
 }
 
+/// f64, nearly coincident long segments far from the origin (the conditioning step and the
+/// nearest-endpoint fallback): whatever proper point is reported lies in both bounding boxes, for
+/// either operand order.  Coordinates are integral multiples of 2^-32 (exact S-ORIENT frame).
+pub fn illcond_h<S: Src>(s: &mut S) {
+    use geo_types::coord;
+    let u = 1.0f64 / 4294967296.0;
+    unsafe {
+        crate::stubs::SCALE_INV = 4294967296.0;
+        crate::stubs::BOUND = 1.0e17;
+    }
+    let (i, j, k, l) = (s.i8() as f64, s.i8() as f64, s.i8() as f64, s.i8() as f64);
+    let p = Line::new(coord! {x: 1000000.0 + i * u * 16.0, y: 2000000.0 + j * u * 16.0}, coord! {x: 1000008.0 + k * u * 16.0, y: 2000004.0 + l * u * 16.0});
+    let q = Line::new(coord! {x: 1000000.0 + 16.0 * u, y: 2000000.0 + 16.0 * u}, coord! {x: 1000008.0 - 8.0 * u, y: 2000004.0 + 16.0 * u});
+    let inb = |c: geo_types::Coord<f64>, l: &Line<f64>| c.x >= l.start.x.min(l.end.x) && c.x <= l.start.x.max(l.end.x) && c.y >= l.start.y.min(l.end.y) && c.y <= l.start.y.max(l.end.y);
+    let r1 = line_intersection(p, q);
+    if let Some(LineIntersection::SinglePoint { intersection, is_proper: true }) = r1 {
+        assert!(inb(intersection, &p) && inb(intersection, &q), "proper point lies outside a segment's bounding box (ill-conditioned pair)");
+    }
+    let r2 = line_intersection(q, p);
+    if let Some(LineIntersection::SinglePoint { intersection, is_proper: true }) = r2 {
+        assert!(inb(intersection, &p) && inb(intersection, &q), "proper point lies outside a segment's bounding box (ill-conditioned pair, operands swapped)");
+    }
+    assert!(r1.is_some() == r2.is_some(), "Some/None depends on the operand order");
+    vcover!(matches!(r1, Some(LineIntersection::SinglePoint { is_proper: true, .. })), "proper crossing of nearly coincident segments");
+    vcover!(r1.is_none(), "nearly coincident but disjoint");
+}
+
 harnesses! {
-    #[kani::stub(robust::orient2d, crate::stubs::orient2d_small)] #[kani::stub(f32::hypot, crate::stubs::hypot_f32)] fn c11_classify_g1(s) { classify_h(s, 1, None) }
-    #[kani::stub(robust::orient2d, crate::stubs::orient2d_small)] #[kani::stub(f32::hypot, crate::stubs::hypot_f32)] fn c11_classify_g2_x0(s) { classify_h(s, 2, Some(-2)) }
-    #[kani::stub(robust::orient2d, crate::stubs::orient2d_small)] #[kani::stub(f32::hypot, crate::stubs::hypot_f32)] fn c11_classify_g2_x1(s) { classify_h(s, 2, Some(-1)) }
-    #[kani::stub(robust::orient2d, crate::stubs::orient2d_small)] #[kani::stub(f32::hypot, crate::stubs::hypot_f32)] fn c11_classify_g2_x2(s) { classify_h(s, 2, Some(0)) }
-    #[kani::stub(robust::orient2d, crate::stubs::orient2d_small)] #[kani::stub(f32::hypot, crate::stubs::hypot_f32)] fn c11_classify_g2_x3(s) { classify_h(s, 2, Some(1)) }
-    #[kani::stub(robust::orient2d, crate::stubs::orient2d_small)] #[kani::stub(f32::hypot, crate::stubs::hypot_f32)] fn c11_classify_g2_x4(s) { classify_h(s, 2, Some(2)) }
+    #[kani::stub(robust::orient2d, crate::stubs::orient2d_exact)] #[kani::stub(f64::hypot, crate::stubs::hypot_f64)] fn c11_illcond_f64(s) { illcond_h(s) }
+    #[kani::stub(robust::orient2d, crate::stubs::orient2d_small)] #[kani::stub(f32::hypot, crate::stubs::hypot_f32)] fn c11_classify_g1(s) { classify_h(s, 1, None, false) }
+    #[kani::stub(robust::orient2d, crate::stubs::orient2d_small)] #[kani::stub(f32::hypot, crate::stubs::hypot_f32)] fn c11_classify_g1_witnessed(s) { classify_h(s, 1, None, true) }
+    #[kani::stub(robust::orient2d, crate::stubs::orient2d_small)] #[kani::stub(f32::hypot, crate::stubs::hypot_f32)] fn c11_classify_g2_x0(s) { classify_h(s, 2, Some(-2), false) }
+    #[kani::stub(robust::orient2d, crate::stubs::orient2d_small)] #[kani::stub(f32::hypot, crate::stubs::hypot_f32)] fn c11_classify_g2_x1(s) { classify_h(s, 2, Some(-1), false) }
+    #[kani::stub(robust::orient2d, crate::stubs::orient2d_small)] #[kani::stub(f32::hypot, crate::stubs::hypot_f32)] fn c11_classify_g2_x2(s) { classify_h(s, 2, Some(0), true) }
+    #[kani::stub(robust::orient2d, crate::stubs::orient2d_small)] #[kani::stub(f32::hypot, crate::stubs::hypot_f32)] fn c11_classify_g2_x3(s) { classify_h(s, 2, Some(1), false) }
+    #[kani::stub(robust::orient2d, crate::stubs::orient2d_small)] #[kani::stub(f32::hypot, crate::stubs::hypot_f32)] fn c11_classify_g2_x4(s) { classify_h(s, 2, Some(2), false) }
     #[kani::stub(robust::orient2d, crate::stubs::orient2d_small)] #[kani::stub(f32::hypot, crate::stubs::hypot_f32)] fn c11_proper_point_g1(s) { proper_point(s, 1, None) }
     #[kani::stub(robust::orient2d, crate::stubs::orient2d_small)] #[kani::stub(f32::hypot, crate::stubs::hypot_f32)] fn c11_proper_point_g2_x0(s) { proper_point(s, 2, Some(-2)) }
     #[kani::stub(robust::orient2d, crate::stubs::orient2d_small)] #[kani::stub(f32::hypot, crate::stubs::hypot_f32)] fn c11_proper_point_g2_x2(s) { proper_point(s, 2, Some(0)) }
@@ -187,7 +218,7 @@ harnesses! {
     #[kani::stub(robust::orient2d, crate::stubs::orient2d_small)] #[kani::stub(f32::hypot, crate::stubs::hypot_f32)] fn c11_order_g2_x2(s) { order_h(s, 2, Some(0)) }
     #[kani::stub(robust::orient2d, crate::stubs::orient2d_small)] #[kani::stub(f32::hypot, crate::stubs::hypot_f32)] fn c11_degenerate_g2(s) { degenerate_h(s, 2) }
     #[kani::stub(robust::orient2d, crate::stubs::orient2d_small)] #[kani::stub(f32::hypot, crate::stubs::hypot_f32)] fn c11_sanity_must_fail(s) {
-        classify_h(s, 1, None);
+        degenerate_h(s, 1);
         assert!(false, "sanity twin reached its end");
     }
 }
